@@ -325,13 +325,36 @@ func verifyFunc(prog *Program, fc *FuncContract) (res *FuncResult) {
 		for _, m := range fc.Modifies {
 			allowedMod[m] = true
 		}
+		framed := map[string]bool{}
 		for _, k := range sortedKeys(final.ghosts) {
 			if strings.HasPrefix(k, "written:") {
 				p := strings.TrimPrefix(k, "written:")
 				if allowedMod[p] {
 					continue
 				}
+				framed[p] = true
 				e.oblige(final, short+"#frame:"+p, "frame", fc.Props, Not(final.ghosts[k].T), node.Pos())
+			}
+		}
+		// backing arrays reachable from slice parameters that were never written: the obligation is trivially
+		// true, but it is recorded so that the claim exists on the unchanged tree (and fails by name later)
+		for _, in := range sortedKeys(env.vals) {
+			v := env.vals[in]
+			if !v.Orig[in] || v.GT == nil {
+				continue
+			}
+			names := []string{in}
+			if sl, ok := v.GT.Underlying().(*types.Slice); ok {
+				switch sl.Elem().Underlying().(type) {
+				case *types.Slice, *types.Interface:
+					names = append(names, in+"[*]")
+				}
+			}
+			for _, p := range names {
+				if framed[p] || allowedMod[p] {
+					continue
+				}
+				e.oblige(final, short+"#frame:"+p, "frame", fc.Props, True, node.Pos())
 			}
 		}
 		if len(fc.Modifies) == 0 || !allowedMod["heap"] {
